@@ -336,6 +336,13 @@ def _add_path_aliases(paths: Set[daglish.Path], structure: Any):
     value = path_to_value.get(path, None)  # None if not memoizable.
     if value is not None:
       paths.update(id_to_paths[id(value)])
+    # The path is also reachable through every alias of each of its ancestors
+    # (this is the only way to find the aliases of a non-memoizable value).
+    for i in range(len(path)):
+      ancestor = path_to_value.get(path[:i], None)
+      if ancestor is not None:
+        for alias in id_to_paths[id(ancestor)]:
+          paths.add(alias + path[i:])
 
 
 ChangesByParent = List[Tuple[daglish.Path, List[diffing.DiffOperation]]]
